@@ -317,3 +317,184 @@ def gen_cmd(rnd, d=0, forms=None, newline_ws=False) -> Cmd:
         text += "".join(p[1] for p in w)
     text += rnd.choice(["", "", " ", "\t"]) + c
     return Cmd((o, c, fn), words, text)
+
+
+# =================================================================================================
+# G5c: macro models (C07)
+
+MACRO_ATOMS = ["x", "y1", "import", "if", "else", "lambda", "not", "in", "None", "1", "2.5", "0x1F", "+", "-", "*", "**", "=", "==", "!=", "<", ">=", "->", ":", ";", ".", "...", "@", "|", "&", "%", "~", "^",
+               "$X", "${x}", "$(ls -l)", "![echo hi]", "@(z)", "a?", "`*.py`", "&&", "||", "echo", "--flag", "a/b", "é", "export", "PATH", "'s'", '"t u"', "'a,b'", '"(x"', "')]'", 'r"\\d,"', "'''m'''", '"it\'s"', "b'q'"]
+MACRO_OPEN = [("(", ")"), ("[", "]"), ("{", "}")]
+
+
+def macro_arg(rnd, d=0, in_bracket=False) -> str:
+    """token soup with balanced brackets and complete strings; no top-level comma unless in_bracket"""
+    parts = []
+    for _ in range(rnd.randint(1, 4)):
+        r = rnd.random()
+        if r < 0.7 or d >= 2:
+            parts.append(rnd.choice(MACRO_ATOMS))
+        else:
+            o, c = rnd.choice(MACRO_OPEN)
+            inner = [macro_arg(rnd, d + 1, True) for _ in range(rnd.randint(0, 3))]
+            sep = rnd.choice([", ", ",", " , ", ",\n  ", ",  # c\n "])
+            parts.append(o + sep.join(inner) + rnd.choice(["", "", ",", " "]) + c)
+        if in_bracket and rnd.random() < 0.2:
+            parts.append(",")
+    out = ""
+    for p in parts:
+        sp = rnd.choice([" ", " ", "", "  ", "\t"])
+        if out and sp == "" and (out[-1].isalnum() or out[-1] in "_'\"") and (p[0].isalnum() or p[0] in "_'\""):
+            sp = " "
+        # never glue characters into a different token that opens a bracket or a string
+        if out and sp == "" and (out[-1] in "$!@`?&|<>=*-+./:%^~" or p[0] in "$!@`?&|<>=*-+./:%^~"):
+            sp = " "
+        out += sp + p if out else p
+    return out
+
+
+def split_top_level(text: str) -> list[str]:
+    """independent scanner: cut at top-level commas (strings with prefixes/triple quotes/escapes, brackets, comments)"""
+    out, cur, depth, i, n = [], "", 0, 0, len(text)
+    while i < n:
+        ch = text[i]
+        if ch in "'\"":
+            q = text[i : i + 3] if text[i : i + 3] in ("'''", '"""') else ch
+            j = i + len(q)
+            while j < n and not text.startswith(q, j):
+                j += 2 if text[j] == "\\" else 1
+            j = min(n, j + len(q))
+            cur += text[i:j]
+            i = j
+            continue
+        if ch == "#" and depth > 0:
+            j = text.find("\n", i)
+            j = n if j < 0 else j
+            cur += text[i:j]
+            i = j
+            continue
+        if ch in "([{":
+            depth += 1
+        elif ch in ")]}":
+            depth -= 1
+        if ch == "," and depth == 0:
+            out.append(cur)
+            cur = ""
+        else:
+            cur += ch
+        i += 1
+    out.append(cur)
+    return out
+
+
+CALLEES = ["f", "obj.m", "g(1)", "tbl[0]", "a.b.c", "f(x)(y)"]
+MACRO_CONTEXTS = ["{M}\n", "x = {M}\n", "x = {M} + 1\n", "r = g({M}, 2)\n", "v = [{M}][0]\n", "w = {M}.attr\n", "{M}; y = 2\n", "if {M}:\n    z = 3\n", "q = ({M},\n     4)\n", "for i in {M}: pass\n", "x = {M}\ny = [1,\n 2]\nz = 5\n"]
+
+
+def call_macro_case(rnd):
+    callee = rnd.choice(CALLEES)
+    n = rnd.randint(1, 4)
+    args = []
+    for i in range(n):
+        a = macro_arg(rnd)
+        lead = rnd.choice(["", "", " ", "  "]) if i else rnd.choice(["", "", " "])
+        trail = rnd.choice(["", "", " "])
+        args.append(lead + a + trail)
+    trailing = rnd.choice(["", "", ",", ", ", " ,"])
+    if trailing == " ,":
+        args[-1] += " "
+        trailing = ","
+    text = callee + "!(" + ",".join(args) + trailing + ")"
+    ctx = rnd.choice(MACRO_CONTEXTS)
+    return {"macro": text, "callee": callee, "args": args, "ctx": ctx}
+
+
+PROC_REST_ATOMS = ["a", "-l", "--x=1", "'q r'", '"s,t"', "1", "b/c", "&&", "|", ">", "if", "import", "$X", "*.py", ";", "x=y", "é", "..", "#h"]
+
+
+def proc_rest(rnd, d=0) -> str:
+    parts = []
+    for _ in range(rnd.randint(0, 5)):
+        r = rnd.random()
+        if r < 0.8 or d >= 1:
+            parts.append(rnd.choice(PROC_REST_ATOMS if d or True else PROC_REST_ATOMS))
+        else:
+            o, c = rnd.choice([("(", ")"), ("[", "]")])
+            parts.append(o + proc_rest(rnd, d + 1) + c)
+    out = ""
+    for p in parts:
+        out += (rnd.choice([" ", "  ", "\t", "   "]) if out else "") + p
+    return out
+
+
+def proc_macro_case(rnd):
+    o, c, fn = rnd.choice(SUBPROC_FORMS)
+    pre = [rnd.choice(["sudo", "env", "-n", "time"]) for _ in range(rnd.choice([0, 0, 1, 2]))]
+    cmd = rnd.choice(["echo", "bash", "git", "python3", "ls"])
+    rest = proc_rest(rnd).replace("#h", "h")
+    lead = rnd.choice([" ", " ", "  ", "\t", ""])
+    if rest[:1] in ("(", "["):
+        lead = lead or " "  # 'cmd!(' / 'cmd![' would be another construct
+    trail = rnd.choice(["", "", " ", "  "])
+    text = o + "".join(p + " " for p in pre) + cmd + "!" + lead + rest + trail + c
+    return {"text": text, "fn": fn, "pre": pre, "cmd": cmd, "rest": rest}
+
+
+BLOCK_LINES = ["a b c", "x = 1", "if y:", "echo $HOME > out.txt", "for i in (1,\n  2):", "s = '''t\nu'''", "# comment", "", "ls -la | grep 'x y'", "def f(a, b=[1, 2]): pass", "print(\"it's\")", "with q as t:", "else:", "{'k': v}", "]unbalanced[" if False else "z = (1, 2)"]
+
+
+def with_block(rnd, ind: str, depth=0) -> list[str]:
+    """lines (without newline) of a block body, each indented at least by ind"""
+    lines = []
+    for _ in range(rnd.randint(1, 4)):
+        r = rnd.random()
+        if r < 0.6 or depth >= 2:
+            ln = rnd.choice(["a b c", "x = 1", "echo $HOME > out.txt", "ls -la | grep 'x y'", "print(\"it's\")", "z = (1, 2)", "import os", "{'k': v}", "pass", "git commit -m 'm n'"])
+            lines.append(ind + ln)
+        elif r < 0.7:
+            lines.append(ind + rnd.choice(["# comment", "#c, (", "# 'quote"]))
+        elif r < 0.78 and lines:
+            lines.append(rnd.choice(["", "", ind, "   "]) if True else "")
+        elif r < 0.86:
+            lines.append(ind + "v = [1,")
+            lines.append(rnd.choice([ind + "     2,", "  2,", ind + "# c", ind + "  3,"]))
+            lines.append(ind + "     4]")
+        else:
+            lines.append(ind + rnd.choice(["if y:", "for i in j:", "with q as t:", "def g():", "else:", "while k:"]))
+            lines.extend(with_block(rnd, ind + rnd.choice(["    ", "  ", "\t"] if "\t" not in ind else ["\t"]), depth + 1))
+    # a block never ends in blank lines here (trailing blanks are added by the caller)
+    while lines and lines[-1].strip() == "":
+        lines.pop()
+    if depth == 0 and rnd.random() < 0.15:
+        lines.insert(0, rnd.choice(["", ind + "# leading comment", "   "]))
+    if not any(ln.strip() and not ln.strip().startswith("#") for ln in lines):
+        lines.append(ind + "pass")  # a block of comments only is no block
+    return lines
+
+
+def with_macro_case(rnd):
+    outer = rnd.choice(["", "", "if c:\n", "def h():\n", "for u in w:\n    if c:\n"])
+    base = "" if not outer else ("    " if outer.count("\n") == 1 else "        ")
+    ctxmgr = rnd.choice(["x", "ctx()", "a.b", "m(1, 2)"])
+    as_ = rnd.choice(["", "", " as y", " as (p, q)"])
+    head = f"{base}with! {ctxmgr}{as_}:"
+    one_line = rnd.random() < 0.25
+    if one_line:
+        body = rnd.choice(["pass", "x = 42; y = 12", "echo $PATH", "ls -l | wc", "[1,\n    2,\n    3]", "a b c  # note", "export A='b c'"])
+        body = rnd.choice([" ", "  ", "\t"]) + body  # the rest of the line after the colon, verbatim
+        text = outer + head + body + "\n"
+        block_lines = None
+    else:
+        unit = rnd.choice(["    ", "  ", "\t", "      "])
+        ind = base + unit if "\t" not in base + unit or (base + unit).strip(" ") == (base + unit) or True else base + "    "
+        block_lines = with_block(rnd, ind)
+        text = outer + head + "\n" + "\n".join(block_lines) + "\n"
+        body = None
+    blanks = rnd.choice([0, 0, 1, 2, 3])
+    follow = rnd.choice(["", "after = 1\n", "print(x)\n", "if t:\n    u = 2\n", "$Y = 3\n"])
+    if follow and base:
+        follow = "".join(base + ln + "\n" for ln in follow.rstrip("\n").split("\n"))
+    text += "\n" * blanks + follow
+    if not follow and rnd.random() < 0.3:
+        text = text.rstrip("\n")
+    return {"src": text, "one_line": one_line, "body": body, "block": block_lines, "blanks": blanks, "follow": follow, "base": base, "outer": outer}
